@@ -53,4 +53,11 @@ contract(MC + "BasicStatement.store_exception_context", inline=True)
 contract(MC + "BasicStatement.reset", inline=True,
          callsites={"self.captured.reset": "abs:Captured.reset"})
 contract("abs:Captured.reset", trusted=True, pos_params=["self"], pure=True, doc="clears captured output (no tracked state)")
-contract(M + "Step.reset", inline=True)
+contract(M + "Step.reset", props=["C02", "C03"], params={"self": "ref:Step"}, self_classes=["Step"],
+         modifies=["self.status", "self.hook_failed", "self.duration", "self.exception", "self.exc_traceback",
+                   "self.error_message", "self.captured"],
+         ensures={"nothing-of-an-earlier-run-survives":
+                  "self.status == Status.untested and self.hook_failed == False and is_none(self.exception) and "
+                  "is_none(self.exc_traceback) and is_none(self.error_message)"},
+         doc="Step.reset(): every run of a step starts from here (Step.run calls it first; reset_steps for copies). "
+             "C03: statuses depend on the latest run only -- a hook failure or error text of an earlier attempt must not survive")
